@@ -140,4 +140,19 @@ CHECKS = {
         assumptions=["names are lists of labels without '.' bytes, as the quantifier says"],
         exhaustive_note="all byte strings over the 9-symbol alphabet up to the stated length",
     ),
+    "C18": dict(
+        title="Raw UDP connection emits valid IPv4/UDP frames and reads only its own",
+        stages=[dict(name="frm", shards=S16, timeout={"quick": 600, "thorough": 3000})],
+        rule="write side: EVERY payload length 0..1500 x 6 patterns {zeros, 0xFF, ffff0001 carry stress, alternating, 2 x random}, source/destination addresses {0.0.0.0, 255.255.255.255, random; 4- and 16-byte forms; "
+             "bound address set or unset} and ports incl. 0 and 65535; the deprecated client4.MakeRawUDPPacket is checked for lengths/ports/addresses/payload. read side: sequences of 1..30 frames drawn from "
+             "{valid, IHL 6..15 with options, trailing link padding, total length shorter than the frame, longer than the frame, IP payload shorter than a UDP header, non-IPv4 versions, non-UDP protocols, "
+             "truncated at a random offset, other port, IHL < 5, other address} with bound address set or unset, ending in a scripted read error; gray-zone frames (UDP length disagreeing, fragments, bad checksums) "
+             "are fed in separate sequences for crash-freedom only. Shape = (length parity, length class, pattern, bound-address flag) / the sequence of frame classes; non-trivial iff payload non-empty / >= 2 frames.",
+        technique="independent RFC 791/768/1071 frame validator applied to every frame written through the real BroadcastRawUDPConn, and a reference reader predicting the exact ReadFrom result sequence for scripted frame sequences",
+        level_text="Every emitted frame is validated field by field incl. both checksums by code sharing nothing with the library; for reads the reference yields the expected (payload bounded by total length, source) "
+                   "sequence and the terminating error, and the real ReadFrom results must equal it in order.",
+        level_note="Trusts harness/refframe. A transmitted UDP checksum of 0 is accepted only in the RFC 768 corner where the computed checksum is itself 0 (counted as udp_checksum_zero_edge). Zero-length reads are not frames and are not generated.",
+        assumptions=["the inner conn is a datagram socket delivering one link-layer payload per read, as packet.Listen(Datagram) does"],
+        exhaustive_note="all payload lengths 0..1500 on the write side",
+    ),
 }
